@@ -24,7 +24,7 @@ try:
         res["alarms"], res["broken"] = {}, {}
         for c in m["checks"]:
             p = c["property_id"]
-            rc, out = sh("./check %s --root %s" % (p, wt), cwd=V)
+            rc, out = sh("BTV_KNOWN_BY_RULE=1 ./check %s --root %s" % (p, wt), cwd=V)
             lines = [l.strip() for l in out.splitlines() if l.startswith(("  R-", "ANALYSIS", "UNDECIDED"))]
             if rc == 1: res["alarms"][p] = lines[:4]
             elif rc != 0: res["broken"][p] = lines[:4]
